@@ -45,3 +45,13 @@ def run_case(case):
         res["nontrivial"] = ["|".join(str(x) for x in (CROP_INFO[spec["crop"]["name"]]["CalendarType"], int(bool(spec.get("off_season"))),
                                                           case.get("partition"), len(planting_dates(spec)), spec["start"][5:], spec["end"][5:]))]
     return res
+
+
+CASE_TIMEOUT_S = 240
+
+
+def on_timeout(case, res):
+    # bounded liveness: "the run always terminates" - a run that is still going after the per-case wall budget
+    # (hundreds of times the normal duration of a run) is reported with the repository frame it was stuck in
+    res["violations"].append({"sig": "C07:does-not-terminate@" + str(res.get("timeout_at")), "msg": res["reason"], "where": {}})
+    return res
